@@ -1101,6 +1101,11 @@ class Vector():
 			self._underlying = new_tuple
 			_ALIAS_TRACKER.register(self, id(new_tuple))
 			self._dtype = DataType(datetime, nullable=self._dtype.nullable)
+			# The date-only behaviour (day arithmetic for `+ n`, comparison of each element taken at
+			# midnight) must not outlive the promotion: from now on this is an ordinary datetime
+			# vector, exactly like one built from the same elements.
+			if type(self) is _Date:
+				self.__class__ = Vector
 		else:
 			# For backwards compat, raise error if trying invalid promotion
 			raise SerifTypeError(f'Cannot convert Vector from {self._dtype.kind.__name__} to {target_kind.__name__}.')
